@@ -2,30 +2,10 @@
    in order, are the 64 cells of a position -- is parsed by the engine's board loop (Model/Fen.v: board_fold) into exactly that
    position's twelve piece sets and three occupancy sets.  Quantified over the texts (token lists), not over one printer. *)
 From Coq Require Import NArith ZArith List Bool String Ascii Lia.
-From JV Require Import Gen.Consts Model.Bits Model.Chess Model.SearchChess Model.Fen Proofs.BitsProofs Proofs.BitboardProofs Proofs.MoveGenProofs Proofs.KeyProofs Proofs.GenProofs
+From JV Require Import Gen.Consts Model.Bits Model.Chess Model.SearchChess Model.Fen Model.FenSyntax Proofs.BitsProofs Proofs.BitboardProofs Proofs.MoveGenProofs Proofs.KeyProofs Proofs.GenProofs
   Proofs.ConsProofs Proofs.RangeProofs Proofs.CellProofs Proofs.AbsBase.
 Import ListNotations.
 Local Open Scope N_scope.
-
-Inductive btok := TPiece (p : N) | TEmpty (n : N) | TSlash.
-Definition piece_chars : list ascii := ["P"; "N"; "B"; "R"; "Q"; "K"; "p"; "n"; "b"; "r"; "q"; "k"]%char.
-Definition tok_char (t : btok) : ascii :=
-  match t with TPiece p => nth (N.to_nat p) piece_chars "?"%char | TEmpty n => ascii_of_N (48 + n) | TSlash => "/"%char end.
-Fixpoint render (tl : list btok) : string := match tl with [] => EmptyString | t :: r => String (tok_char t) (render r) end.
-Definition tok_ok (t : btok) : bool := match t with TPiece p => p <? 12 | TEmpty n => (1 <=? n) && (n <=? 8) | TSlash => true end.
-Definition expand_tok (t : btok) : list (option N) :=
-  match t with TPiece p => [Some p] | TEmpty n => repeat None (N.to_nat n) | TSlash => [] end.
-Definition expand (tl : list btok) : list (option N) := flat_map expand_tok tl.
-
-Definition bstate := (list N * N * N * N * N)%type.
-Definition step_tok (st : bstate) (t : btok) : bstate :=
-  let '(bs, w, b, a, i) := st in
-  match t with
-  | TPiece p => let sq := i mod 64 in
-      (upd bs p (set_bit (nthN bs p) sq), (if p <? 6 then set_bit w sq else w), (if p <? 6 then b else set_bit b sq), set_bit a sq, (i + 1) mod 256)
-  | TEmpty n => (bs, w, b, a, (i + n) mod 256)
-  | TSlash => st
-  end.
 
 (* the characters: evaluation over the 12 letters and the 8 digits *)
 Definition piece_char_ok (p : N) : bool :=
